@@ -157,7 +157,8 @@ def step (seq : List Nat) (base maxJumps : Nat) (s : St) : Except Stop St :=
 def run (seq : List Nat) (base maxJumps maxTicks : Nat) : Nat → St → List Tk × Stop
   | 0, s => (s.out.reverse, .fuel)
   | fuel + 1, s =>
-    if s.out.length > maxTicks then (s.out.reverse, .tooManyTicks) else
+    -- (the length test is only made every 64th step: it is linear in the output so far)
+    if fuel % 64 = 0 ∧ s.out.length > maxTicks then (s.out.reverse, .tooManyTicks) else
     match step seq base maxJumps s with
     | .error e => (s.out.reverse, e)
     | .ok s' => run seq base maxJumps maxTicks fuel s'
